@@ -200,7 +200,7 @@ pub mod report {
 pub mod comment {
     use crate::comment::{CharClasses, FullCodeCharKind, LineClasses};
 
-    pub fn kind_letter(k: FullCodeCharKind) -> char {
+    pub(crate) fn kind_letter(k: FullCodeCharKind) -> char {
         match k {
             FullCodeCharKind::Normal => 'N',
             FullCodeCharKind::StartComment => 'S',
